@@ -109,6 +109,18 @@ impl Executor for StatefulExecutor {
             .min()
             .unwrap_or_default()
             .map_or((false, None), |t| (t.is_global, Some(t.timeout)));
+            #[cfg(feature = "verif")]
+            crate::verif::emit(
+                "timeout_decision",
+                serde_json::json!({
+                    "index": index,
+                    "per_test_ms": testcase.config.timeout.map(|d| d.as_millis() as u64),
+                    "doc_limit_ms": timeout_duration.as_millis() as u64,
+                    "doc_remaining_ms": timeout_left().map(|d| d.as_millis() as u64),
+                    "chosen_ms": timeout.map(|d| d.as_millis() as u64),
+                    "is_global": is_global_timeout,
+                }),
+            );
             let span = trace_span!("execution", expression = &testcase.shell_expression, timeout = ?&timeout);
             let _enter = span.enter();
 
@@ -137,10 +149,20 @@ impl Executor for StatefulExecutor {
             let context = context.to_owned();
 
             trace!("effective testcase configuration: {}", &testcase.config);
+            #[cfg(feature = "verif")]
+            crate::verif::emit(
+                "exec_begin",
+                serde_json::json!({"index": index, "line": testcase.line_number}),
+            );
             let mut output = runner_gen(state_directory.path())
                 .run(&name, &testcase, context)
                 .map_err(|err| ExecutionError::failed(index, err))?;
             trace!("{output:?}");
+            #[cfg(feature = "verif")]
+            crate::verif::emit(
+                "exec_end",
+                serde_json::json!({"index": index, "status": output.exit_code.to_string()}),
+            );
 
             // handle exit code
             let skip_document_code = testcase.config.get_skip_document_code();
